@@ -150,38 +150,49 @@ func sizeOf(l *Listing, name string) int64 {
 	return -1
 }
 
-// Tail is the cheap "after" snapshot: the listing and the journal bytes.
-// Every other file of a LevelDB directory is immutable once it has its final
-// size (tables) or append-only together with a rename (MANIFEST/CURRENT), so an
-// unchanged listing means only the journal moved.
+// Tail is the cheap "after" snapshot: the name and the bytes of the journal.
+//
+// Nothing else is needed: a write (Put/Delete/Write) only appends to the
+// journal. The other files change only through goleveldb's own background
+// work: a table compaction rewrites immutable tables into new ones with the
+// same content and never touches the journal, so "image files + journal
+// prefix" stays a state the disk could have been in at the moment of the
+// death whether or not a compaction ran meanwhile (compactions are triggered by
+// read sampling, independently of the writes). A memtable rotation, which
+// does change what the journal means, switches to a NEW journal file and is
+// detected by the name.
 type Tail struct {
-	L       *Listing
+	Name    string
 	Journal []byte
 }
 
 func TakeTail(src string) (*Tail, error) {
-	l, err := List(src)
+	ents, err := os.ReadDir(src)
 	if err != nil {
 		return nil, err
 	}
-	b, err := os.ReadFile(filepath.Join(src, l.Journal))
+	name := ""
+	for _, e := range ents {
+		if strings.HasSuffix(e.Name(), ".log") {
+			if name != "" {
+				return nil, ErrUnstable // rotation in progress: two journals
+			}
+			name = e.Name()
+		}
+	}
+	if name == "" {
+		return nil, ErrUnstable
+	}
+	b, err := os.ReadFile(filepath.Join(src, name))
 	if err != nil {
 		return nil, ErrUnstable
 	}
-	l2, err := List(src)
-	if err != nil {
-		return nil, err
-	}
-	if !SameExceptJournal(l, l2) || sizeOf(l2, l2.Journal) != int64(len(b)) {
-		return nil, ErrUnstable
-	}
-	return &Tail{L: l2, Journal: b}, nil
+	return &Tail{Name: name, Journal: b}, nil
 }
 
-// Extends reports whether t is the image's directory with only records
-// appended to the journal (same files, journal of the image is a prefix).
+// Extends reports whether t is the image's journal with only records appended.
 func (img *Image) Extends(t *Tail) bool {
-	return SameExceptJournal(img.L, t.L) && len(t.Journal) >= len(img.Journal) && bytes.Equal(t.Journal[:len(img.Journal)], img.Journal)
+	return t.Name == img.L.Journal && len(t.Journal) >= len(img.Journal) && bytes.Equal(t.Journal[:len(img.Journal)], img.Journal)
 }
 
 // Materialise builds in dst the directory a process death would leave: the
@@ -209,11 +220,22 @@ func (img *Image) Materialise(dst string, journal []byte) error {
 type KV struct{ K, V []byte }
 
 // RawDump opens a directory with goleveldb itself (the same recovery the node's
-// db.NewLevelDBManager triggers) and returns the whole raw key space in order.
-// The directory is modified by the open (journal replayed into a table), so
-// pass a scratch copy.
+// db.NewLevelDBManager triggers: manifest, then journal replay into a table)
+// and returns the whole raw key space in order. The directory is modified by
+// the open, so pass a scratch copy.
 func RawDump(dir string) ([]KV, error) {
-	ldb, err := leveldb.OpenFile(dir, &opt.Options{ErrorIfMissing: true})
+	return rawDump(dir, &opt.Options{ErrorIfMissing: true})
+}
+
+// RawDumpRO is RawDump through goleveldb's read-only recovery: the journal is
+// replayed into memory by the same journal reader and batch decoder, nothing is
+// written. About three times cheaper; used for the bulk of the enumeration.
+func RawDumpRO(dir string) ([]KV, error) {
+	return rawDump(dir, &opt.Options{ErrorIfMissing: true, ReadOnly: true, WriteBuffer: 128 << 10, DisableBlockCache: true, DisableSeeksCompaction: true})
+}
+
+func rawDump(dir string, o *opt.Options) ([]KV, error) {
+	ldb, err := leveldb.OpenFile(dir, o)
 	if err != nil {
 		return nil, err
 	}
